@@ -119,5 +119,30 @@ S9 == File1(Types, <<>>, <<
      ExprS(MCall(V("top"), "push", <<V("i")>>)) >>),
   PrintS(V("m")) >>)
 
-Stress == <<S1, S2, S3, S4, S5, S6, S7, S8, S9>>
+\* S10: a value moved from the heap into a local of a frame that is then suspended: marking can end inside the callees
+S10 == File1(Types,
+  << Fn("work", <<Par("n", "int")>>, "int",
+        <<Let("junk", Arr(<<V("n"), V("n"), V("n")>>)), Let("j2", Arr(<<V("junk"), V("junk")>>)), ExprS(Bin("+", V("n"), I(1)))>>),
+     Fn("taker", <<Par("a", "array<array<int>>")>>, "int",
+        <<Let("x", MCall(V("a"), "pop", <<>>)),
+          Let("k", Call("work", <<I(3)>>)),
+          Let("k2", Call("work", <<V("k")>>)),
+          ExprS(Bin("+", Bin("+", Idx(V("x"), I(0)), Idx(V("x"), I(1))), Bin("+", V("k"), V("k2"))))>>) >>,
+  << PrintS(Call("taker", <<Arr(<<Arr(<<I(1), I(2)>>), Arr(<<I(3), I(4)>>), Arr(<<I(5), I(6)>>)>>)>>)),
+     PrintS(Call("taker", <<Arr(<<Arr(<<I(7), I(8)>>), Arr(<<I(9), I(10)>>)>>)>>)) >>)
+
+\* S11: the popped value goes into a parameter slot (below the frame base), then the function allocates and calls
+S11 == File1(Types,
+  << Fn("work", <<Par("n", "int")>>, "int",
+        <<Let("junk", Arr(<<V("n"), V("n"), V("n")>>)), ExprS(Bin("+", V("n"), I(1)))>>),
+     Fn("intop", <<Par("a", "array<array<int>>"), Par("s", "array<int>")>>, "int",
+        <<Let("pad", Arr(<<I(0), I(0), I(0), I(0)>>)),
+          Assign(V("s"), "=", MCall(V("a"), "pop", <<>>)),
+          Let("k", Call("work", <<I(2)>>)),
+          Let("junk", Arr(<<V("k"), V("k")>>)),
+          ExprS(Bin("+", Idx(V("s"), I(0)), Bin("+", Idx(V("s"), I(1)), V("k"))))>>) >>,
+  << PrintS(Call("intop", <<Arr(<<Arr(<<I(1), I(2)>>), Arr(<<I(3), I(4)>>)>>), Arr(<<I(0), I(0)>>)>>)),
+     PrintS(Call("intop", <<Arr(<<Arr(<<I(5), I(6)>>), Arr(<<I(7), I(8)>>)>>), Arr(<<I(0), I(0)>>)>>)) >>)
+
+Stress == <<S1, S2, S3, S4, S5, S6, S7, S8, S9, S10, S11>>
 =============================================================================
